@@ -36,6 +36,10 @@ def plan(tier, seed):
             for pi in range(pieces):
                 specs.append({"cls": cname, "stratum": stratum, "seed": seed, "tier": tier,
                               "start": pi * n // pieces, "count": (pi + 1) * n // pieces - pi * n // pieces})
+    # threads that construct their own objects: quick runs them for two of the classes (rotating with the seed) so that
+    # the check stays within one wave of 16 worker processes; thorough for all
+    own = CLASSES if tier != "quick" else [CLASSES[seed % len(CLASSES)], CLASSES[(seed + 3) % len(CLASSES)]]
+    for cname in own:
         specs.append({"cls": cname, "stratum": "clean", "own_obj": True, "seed": seed, "tier": tier,
                       "start": 10**6, "count": 1 if tier == "quick" else 30})
     return specs
@@ -49,6 +53,12 @@ def make_prog(spec, i):
         # registration races); explored with the constructor-delay schedule family as well
         parts, meta = concgen.writer_program(r, info.kind, spec["stratum"], nthreads=2, max_ops=1,
                                              topo="own_obj_in_thread")
+        if i % 2 == 0:
+            # every other program: plain insertions whose loss cannot go unnoticed
+            for ti, t in enumerate(parts["threads"]):
+                t[1] = ({"op": "setitem", "h": ti, "path": [], "args": [f"n{ti}", concgen.uval(ti, 0, r)]}
+                        if info.kind == "dict" else
+                        {"op": "append", "h": ti, "path": [], "args": [concgen.uval(ti, 0, r)]})
     else:
         parts, meta = concgen.writer_program(r, info.kind, spec["stratum"])
     prog = {"cls": info.name, **parts}
@@ -69,11 +79,14 @@ def run_shard(spec):
         prog, meta, r = make_prog(spec, i)
         runner = conc.ProgramRunner(prog)
         try:
-            pol = ("sweep", "boundary", "ctor") if spec["tier"] == "quick" \
-                else ("sweep", "boundary", "ctor", "two_delay", "random")
+            if spec["tier"] != "quick":
+                pol = ("sweep", "boundary", "ctor", "two_delay", "random")
+            else:
+                # quick: the constructor-delay family only where every thread constructs its own object
+                pol = ("sweep", "ctor") if spec.get("own_obj") else ("sweep", "boundary")
             res = conc.explore(prog, runner, r, spec["tier"],
                                {"cls": prog["cls"], "stratum": spec["stratum"], "topology": meta["topology"]},
-                               policies=pol, deadline=t0 + BUDGET[spec["tier"]] * 1.5)
+                               policies=pol, deadline=t0 + BUDGET[spec["tier"]] * (1.2 if spec.get("own_obj") else 1.5))
         finally:
             runner.close()
         out["evaluations"] += res["runs"]
